@@ -75,8 +75,10 @@ def variants(spec, seed):
     # exact affine maps of the quantitative features
     if any(d['kind'] == 'quanti' for d in spec['features'].values()):
         for _ in range(2):
-            a = rng.choice([2.0, 0.5, 4.0, 1024.0, 0.25, 8.0])
-            b = rng.choice([0.0, 1.0, -3.0, 0.5, 100.0])
+            a = rng.choice([2.0, 0.5, 4.0, 1024.0, 0.25, 8.0, 2.0 ** -40, 2.0 ** 30])
+            b = rng.choice([0.0, 1.0, -3.0, 0.5, 100.0, 2.0 ** 27, -(2.0 ** 30)])
+            if a < 1e-6:
+                b = 0.0
             s = copy.deepcopy(spec)
             ok = True
             for f, d in s['features'].items():
